@@ -66,9 +66,9 @@ Section E2E.
        eattrs := apply_meta excl (dump_meta_ev excl e) [] |}.
   (* what the peer answers: class of the answer (order on the wire within one read), value, error flag *)
   Definition kind (e : event) : nat :=
-    if fw_recv (ev1 e) then match handler (ev2 e) with HRaise true => 3 | HRaise false => 2 | _ => 1 end else 0.
+    if fw_recv (ev1 e) then match handler (ev2 e) with HRaise true | HValLate _ => 3 | HRaise false => 2 | _ => 1 end else 0.
   Definition oval (e : event) : json :=
-    if fw_recv (ev1 e) then match handler (ev2 e) with HVal r => r | HRaise _ => JERR | HNone => JNull end
+    if fw_recv (ev1 e) then match handler (ev2 e) with HVal r | HValLate r => r | HRaise _ => JERR | HNone => JNull end
     else JNull.
   Definition oerr (e : event) : bool :=
     if fw_recv (ev1 e) then match handler (ev2 e) with HRaise _ => true | _ => false end else false.
@@ -95,7 +95,7 @@ Section E2E.
                 echannels := match echannels (ev1 e) with [] => [b_chan] | l => l end;
                 eattrs := eattrs (ev1 e) |} with (ev2 e).
       cbv zeta. cbn [no_reply]. rewrite packet_eq.
-      destruct (handler (ev2 e)) as [|r|[|]]; reflexivity.
+      destruct (handler (ev2 e)) as [|r|r|[|]]; reflexivity.
     - rewrite packet_eq. reflexivity.
   Qed.
 
@@ -131,7 +131,7 @@ Section E2E.
   Lemma kind_le : forall e, kind e = 0 \/ kind e = 1 \/ kind e = 2 \/ kind e = 3.
   Proof.
     intros e. unfold kind. destruct (fw_recv (ev1 e)); [|auto].
-    destruct (handler (ev2 e)) as [|r|[|]]; auto.
+    destruct (handler (ev2 e)) as [|r|r|[|]]; auto.
   Qed.
 
   Lemma perm_new : forall la, Permutation (newR la) la.
@@ -775,8 +775,9 @@ Section E2E.
   Proof. intros e Hf. unfold exp1. rewrite Hf. auto. Qed.
   Lemma final_err : forall e, get k_errors (meta_of e) = None -> c_err (final e) = Some (JBool (oerr e)).
   Proof. intros e H. unfold final, set_value. cbn [c_err]. rewrite H. reflexivity. Qed.
-  Lemma oval_val : forall e r, fw_recv (ev1 e) = true -> handler (ev2 e) = HVal r -> oval e = r /\ oerr e = false.
-  Proof. intros e r Hf Hh. unfold oval, oerr. rewrite Hf, Hh. auto. Qed.
+  Lemma oval_val : forall e r, fw_recv (ev1 e) = true -> handler (ev2 e) = HVal r \/ handler (ev2 e) = HValLate r ->
+    oval e = r /\ oerr e = false.
+  Proof. intros e r Hf [Hh|Hh]; unfold oval, oerr; rewrite Hf, Hh; auto. Qed.
   Lemma oval_raise : forall e late, fw_recv (ev1 e) = true -> handler (ev2 e) = HRaise late ->
     oval e = JERR /\ oerr e = true.
   Proof. intros e late Hf Hh. unfold oval, oerr. rewrite Hf, Hh. auto. Qed.
@@ -790,7 +791,7 @@ Section E2E.
   Lemma exp1_rej : forall e m, fw_send e = false -> exp1 (e, m) = rej_call m.
   Proof. intros e m Hf. unfold exp1. rewrite Hf. reflexivity. Qed.
   Lemma logof_run : forall e, fw_recv (ev1 e) = true -> handler (ev2 e) <> HNone -> logof e = [ev2 e].
-  Proof. intros e Hf Hh. unfold logof. rewrite Hf. destruct (handler (ev2 e)); [congruence|reflexivity|reflexivity]. Qed.
+  Proof. intros e Hf Hh. unfold logof. rewrite Hf. destruct (handler (ev2 e)); [congruence|reflexivity|reflexivity|reflexivity]. Qed.
   Lemma logof_blocked : forall e, fw_recv (ev1 e) = false -> logof e = [].
   Proof. intros e Hf. unfold logof. rewrite Hf. reflexivity. Qed.
 End E2E.
